@@ -769,6 +769,9 @@ package io
 // not have; the lookup in the field table can miss, and a missed lookup must not be used (C04)
 //@ func (mapDecoder).canDecodeObjectAsMap
 //@   nopanic
+// (assumed) an accessor that was stored in a field table is complete; a lookup that MISSES yields
+// the zero accessor, whose Type is nil
+//@ mapinv FieldAccessor v.Type != nil
 // (assumed) every decode handler stored in a field table is one of this package's decoders
 //@ type DecodeHandler(dec, t, p)
 //@   use decany
